@@ -6,6 +6,7 @@ import (
 	"io"
 	"mime"
 	"mime/multipart"
+	"path/filepath"
 	"strings"
 	"sync"
 	"time"
@@ -440,8 +441,247 @@ func (g *gen) rerunCases() {
 				in.ForceMultipart = true
 			}
 			in.Chunked = rng.Chance(35)
+			if nf > 0 && rng.Chance(40) { // upload callbacks across the attempts: each attempt counts from zero
+				in.Callback = hk.Pick(rng, []string{"0", "1h"})
+				for j := range in.Files { // distinct names, so that the per-file streams can be told apart
+					in.Files[j].Name = fmt.Sprintf("%d-%s", j, in.Files[j].Name)
+				}
+				r.Count("rerun:" + in.Rerun + ":upload-callback")
+			}
 		}
 		r.Count("rerun:" + in.Rerun + ":" + in.Kind)
 		g.oneBody(in)
 	}
+}
+
+// ---- downloads reached through redirect hops with bodies of their own, and retried downloads ----
+// One call = several response bodies read through the download wrapper: the 3xx bodies net/http drains
+// before following, the body of an attempt that is retried, the body that is finally saved.  What the
+// caller is told must concern the body being saved: per attempt (DownloadInfo.Response) the counts are
+// non-decreasing, never above that body's size, and finish at it.
+
+type dlReport struct {
+	Attempt int   `json:"attempt"` // index of the *req.Response the report came with (1, 2 ...)
+	Inter   bool  `json:"intermediate"`
+	Size    int64 `json:"size"`
+}
+
+type dlCall struct {
+	Kind     string `json:"kind"`
+	Hops     int    `json:"hops"`
+	RB       int    `json:"redirect_body"`
+	RCL      bool   `json:"redirect_content_length"`
+	Status   int    `json:"redirect_status"`
+	Size     int    `json:"size"`
+	CL       bool   `json:"content_length"`
+	Interval string `json:"interval"`
+	Mode     string `json:"mode"` // output | file | autoread
+	Retry    bool   `json:"retry"`
+	FB       int    `json:"first_attempt_body"`
+	Proto    string `json:"proto,omitempty"`
+}
+
+func (g *gen) downloadCallCases() {
+	r, rng := g.r, g.rng
+	rbs := []int{0, 1, 150, 2048, 2049, 5000}
+	sizes := []int{0, 1, 10, 100, 513, 40000}
+	n := r.Scale(110, 1500)
+	for i := 0; i < n; i++ {
+		in := dlCall{Kind: "download-call", Hops: []int{1, 2, 3, 0, 1}[i%5], RB: rbs[(i/5)%len(rbs)], RCL: rng.Chance(70), Status: hk.Pick(rng, []int{301, 302, 303, 307, 308}),
+			Size: hk.Pick(rng, sizes), CL: rng.Bool(), Interval: []string{"0", "1h", "1ms"}[i%3], Mode: []string{"output", "output", "file", "autoread"}[(i/3)%4]}
+		if i%7 == 3 {
+			in.Retry = true
+			in.FB = hk.Pick(rng, []int{0, 9, 600})
+		}
+		if i%11 == 6 {
+			in.Proto = hk.Pick(rng, []string{"h2", "h3"})
+			if in.Proto == "h3" && g.o.h3 == nil {
+				in.Proto = ""
+			}
+		}
+		g.oneDownloadCall(in)
+	}
+}
+
+func (g *gen) oneDownloadCall(in dlCall) {
+	r := g.r
+	id := fmt.Sprintf("c%d", g.n)
+	pay := g.rng.Bytes(in.Size)
+	g.o.mu.Lock()
+	g.o.serve[id] = pay
+	g.o.mu.Unlock()
+	defer func() {
+		g.o.mu.Lock()
+		delete(g.o.serve, id)
+		g.o.mu.Unlock()
+	}()
+	c := req.C().DisableAutoDecode()
+	switch in.Proto {
+	case "h2":
+		c.EnableInsecureSkipVerify().EnableForceHTTP2()
+	case "h3":
+		c.EnableInsecureSkipVerify().EnableForceHTTP3()
+	}
+	defer c.GetTransport().CloseIdleConnections()
+	x := g.nextX()
+	u := g.o.urlFor(in.Proto, x) + fmt.Sprintf("&dl=%s&hops=%d&rb=%d&rs=%d", id, in.Hops, in.RB, in.Status)
+	if !in.CL {
+		u += "&cl=0"
+	}
+	if !in.RCL {
+		u += "&rcl=0"
+	}
+	rq := c.R()
+	if in.Retry {
+		u += fmt.Sprintf("&first=503&fb=%d", in.FB)
+		rq.SetRetryCount(1).SetRetryFixedInterval(0).SetRetryCondition(func(resp *req.Response, err error) bool {
+			return err == nil && resp.StatusCode == 503
+		})
+	}
+	var mu sync.Mutex
+	var reps []dlReport
+	attempts := map[*req.Response]int{}
+	rq.SetDownloadCallbackWithInterval(func(info req.DownloadInfo) {
+		mu.Lock()
+		k, ok := attempts[info.Response]
+		if !ok {
+			k = len(attempts) + 1
+			attempts[info.Response] = k
+		}
+		reps = append(reps, dlReport{Attempt: k, Inter: info.Response == nil || info.Response.Response == nil, Size: info.DownloadedSize})
+		mu.Unlock()
+	}, intervals[in.Interval])
+	sw := &sizeWriter{}
+	var file string
+	switch in.Mode {
+	case "output":
+		rq.SetOutput(sw)
+	case "file":
+		file = filepath.Join(g.r.OutDir, "files", "dl", x)
+		rq.SetOutputFile(file)
+	}
+	var err error
+	var resp *req.Response
+	done := make(chan struct{})
+	go func() {
+		defer close(done)
+		defer func() {
+			if p := recover(); p != nil {
+				err = fmt.Errorf("panic: %v", p)
+			}
+		}()
+		resp, err = rq.Get(u)
+	}()
+	select {
+	case <-done:
+	case <-time.After(60 * time.Second):
+		r.Fail(hk.Failure{Sig: "harness:download-call:watchdog", What: "watchdog", Input: in})
+		return
+	}
+	g.o.take(x)
+	g.o.take(x + "#1")
+	r.Count(fmt.Sprintf("download-call:hops=%d:%s", in.Hops, in.Mode))
+	if in.Retry {
+		r.Count("download-call:retried")
+	}
+	if err != nil || resp == nil || resp.Err != nil || resp.StatusCode != 200 {
+		r.Fail(hk.Failure{Sig: "download-call:error", What: fmt.Sprintf("download through %d redirect hop(s) failed: %v", in.Hops, err), Input: in})
+		return
+	}
+	mu.Lock()
+	defer mu.Unlock()
+	key := fmt.Sprintf("dlc|%+v", in)
+	if in.Mode == "autoread" {
+		// no output target: the download callback does not apply
+		if len(reps) != 0 {
+			r.Fail(hk.Failure{Sig: "download-call:autoread-reports", What: "download callback invoked although the response is not saved", Input: in, Got: reps})
+		}
+		r.Add(hk.Case{Desc: in}, key, true)
+		return
+	}
+	// per attempt: the body that attempt saved
+	// (attempts are numbered by their first report: an attempt that saved an empty body makes none)
+	var totals []int64
+	if in.Retry && in.FB > 0 {
+		totals = append(totals, int64(in.FB))
+	}
+	if in.Size > 0 {
+		totals = append(totals, int64(in.Size))
+	}
+	by := map[int][]int64{}
+	for _, p := range reps {
+		by[p.Attempt] = append(by[p.Attempt], p.Size)
+	}
+	for k := 1; k <= len(totals); k++ {
+		seq, total := by[k], totals[k-1]
+		bad := ""
+		for j, v := range seq {
+			if j > 0 && v < seq[j-1] {
+				bad = "decreasing"
+			}
+			if v > total {
+				bad = "exceeds"
+			}
+		}
+		if bad == "" && total > 0 && (len(seq) == 0 || seq[len(seq)-1] != total) {
+			bad = "final"
+		}
+		if bad != "" {
+			shape := "direct"
+			if in.Hops > 0 {
+				shape = "redirected"
+			}
+			if in.Retry {
+				shape += "+retried"
+			}
+			r.Fail(hk.Failure{Sig: "download-call:" + bad + ":" + shape, What: fmt.Sprintf("download callback reports of attempt %d violate the property (%s): the body saved has %d bytes", k, bad, total), Input: in, Got: reps, Want: total})
+			r.Add(hk.Case{Desc: in}, key, true)
+			return
+		}
+	}
+	if len(by) > len(totals) {
+		r.Fail(hk.Failure{Sig: "download-call:extra-attempt", What: "reports for more responses than were saved", Input: in, Got: reps})
+	}
+	// Coq: the reports of the last attempt are those of its final body alone, whatever was drained before
+	if in.Mode != "output" || in.Interval == "1ms" {
+		r.Add(hk.Case{Desc: in}, key, true)
+		return
+	}
+	// sizeWriter saw every body that was saved (first attempt's, then the final one): the final body's reads are the tail
+	rem, tail := in.Size, []int{}
+	for j := len(sw.ns) - 1; j >= 0 && rem > 0; j-- {
+		tail = append([]int{sw.ns[j]}, tail...)
+		rem -= sw.ns[j]
+	}
+	if rem != 0 {
+		r.Add(hk.Case{Desc: in}, key, true)
+		return
+	}
+	ivz := int64(0)
+	if in.Interval == "1h" {
+		ivz = 3600e9
+	}
+	body := func(ns []int) string {
+		var evs []string
+		for _, k := range ns {
+			evs = append(evs, fmt.Sprintf("(%s, false, 0%%Z)", hk.CoqZ(int64(k))))
+		}
+		evs = append(evs, "(0%Z, true, 0%Z)")
+		return hk.CoqPair("0%Z", hk.CoqList(evs))
+	}
+	var bodies []string
+	for h := 0; h < in.Hops; h++ {
+		d := in.RB
+		if d > 2048 {
+			d = 2048
+		}
+		bodies = append(bodies, body([]int{d}))
+	}
+	bodies = append(bodies, body(tail))
+	var last []int64
+	if in.Size > 0 {
+		last = by[len(totals)]
+	}
+	coq := fmt.Sprintf("CallCase %s %s %s", hk.CoqZ(ivz), hk.CoqList(bodies), coqZs(last))
+	r.Add(hk.Case{Coq: coq, Desc: in}, key, true)
 }
